@@ -55,10 +55,27 @@
 (*                  that exists, or by another CA) and CliRotate            *)
 (*                  replacements of the roots file in place; printed as     *)
 (*                  <<"CSCRIPT", json>>.                                    *)
-(* Extra \subseteq {"rot", "rrot", "rfail", "client"} selects the last     *)
-(* four.                                                                   *)
+(* kind = "res":    duplex scripts of RETURNING CLIENTS THAT RESUME: every    *)
+(*                  connection is ConnectReturning(cc): the client keeps its *)
+(*                  TLS state for the whole script (one per certificate),    *)
+(*                  offers the tickets it holds and keeps the ones it gets.  *)
+(*                  c.mtls in ResMtls; with mutual TLS cc = the certificate  *)
+(*                  of any generation of the CA that exists and Rotate is an *)
+(*                  operation (ResRotate of them), without it cc = "none"    *)
+(*                  and there is no rotation.  hist[i] carries keep = TRUE,  *)
+(*                  obs[i] also `holds` (the client holds a ticket when it   *)
+(*                  connects) and `mayResume` (one of them was issued by the *)
+(*                  configuration in force: the handshake MAY be a           *)
+(*                  resumption; otherwise it MUST be a full one).  Bounds    *)
+(*                  ResConn / ResReload / ResRotate / ResUse; printed as     *)
+(*                  <<"SCRIPT", json>>.                                      *)
+(* kind = "rres":   the same through the real server; bounds RRes*, c.mtls   *)
+(*                  in RResMtls; printed as <<"RSCRIPT", json>>.             *)
+(* Extra \subseteq {"rot", "rrot", "rfail", "client", "res", "rres"}       *)
+(* selects the last six.                                                   *)
 (* On every state TLC checks Undisturbed, Fresh, ConfigKept, CAFollows,    *)
-(* JudgedAsConfigured, Authenticated and ClientFollowsRoots.               *)
+(* JudgedAsConfigured, TicketsOfThisConfiguration, Authenticated and       *)
+(* ClientFollowsRoots.                                                     *)
 (***************************************************************************)
 EXTENDS TlsAuth, Json
 
@@ -68,13 +85,15 @@ CONSTANTS MaxConn, MaxReload, MaxUse, Mtls,
           RRotConn, RRotReload, RRotRotate, RRotUse,
           CliConn, CliRotate,
           FConn, FReload, FBotch, FUse, FailMtls,
+          ResConn, ResReload, ResRotate, ResUse, ResMtls,
+          RResConn, RResReload, RResRotate, RResUse, RResMtls,
           Extra
 
-ASSUME Extra \subseteq {"rot", "rrot", "client", "rfail"}
+ASSUME Extra \subseteq {"rot", "rrot", "client", "rfail", "res", "rres"}
 
 VARIABLES kind, c, hist, obs
 
-vars == <<kind, c, hist, obs, identityVersion, live, conns, wantCA, liveCA, wantGen, liveGen, dueGen, botched,
+vars == <<kind, c, hist, obs, identityVersion, live, conns, wantCA, liveCA, wantGen, liveGen, dueGen, botched, tickets,
           rootsGen, rootsRead, cseen>>
 
 Count(op) == Cardinality({i \in DOMAIN hist : hist[i].op = op})
@@ -85,6 +104,11 @@ Bound(op) ==
     [] kind = "rrot"   -> (CASE op = "connect" -> RRotConn [] op = "reload" -> RRotReload [] op = "rotate" -> RRotRotate [] op = "use" -> RRotUse [] OTHER -> 0)
     [] kind = "rfail"  -> (CASE op = "connect" -> FConn [] op = "reload" -> FReload [] op = "botch" -> FBotch [] op = "use" -> FUse [] OTHER -> 0)
     [] kind = "client" -> (CASE op = "connect" -> CliConn [] op = "rotate" -> CliRotate [] OTHER -> 0)
+    \* (no rotation without a client CA)
+    [] kind = "res"    -> (CASE op = "connect" -> ResConn [] op = "reload" -> ResReload [] op = "use" -> ResUse
+                            [] op = "rotate" -> (IF c.mtls THEN ResRotate ELSE 0) [] OTHER -> 0)
+    [] kind = "rres"   -> (CASE op = "connect" -> RResConn [] op = "reload" -> RResReload [] op = "use" -> RResUse
+                            [] op = "rotate" -> (IF c.mtls THEN RResRotate ELSE 0) [] OTHER -> 0)
     [] OTHER           -> (CASE op = "connect" -> MaxConn [] op = "reload" -> MaxReload [] op = "use" -> MaxUse [] OTHER -> 0)
 
 Init ==
@@ -95,6 +119,8 @@ Init ==
      \/ kind \in Extra \cap {"rot", "rrot"} /\ c = [mtls |-> TRUE] /\ MInitWith("configured")
      \/ kind \in Extra \cap {"client"} /\ c = [mtls |-> FALSE] /\ MInitWith("none")
      \/ kind \in Extra \cap {"rfail"} /\ c \in [mtls : FailMtls] /\ MInitWith(CAOf(c.mtls))
+     \/ kind \in Extra \cap {"res"} /\ c \in [mtls : ResMtls] /\ MInitWith(CAOf(c.mtls))
+     \/ kind \in Extra \cap {"rres"} /\ c \in [mtls : RResMtls] /\ MInitWith(CAOf(c.mtls))
 
 DoConnect ==
   /\ Count("connect") < Bound("connect")
@@ -108,6 +134,17 @@ DoConnectAs(cc) ==
   /\ ConnectAs(cc)
   /\ hist' = Append(hist, [op |-> "connect", conn |-> IF Admitted(cc) THEN Len(conns) + 1 ELSE 0, cc |-> cc])
   /\ obs' = Append(obs, [outcome |-> HandshakeOutcome(cc), identity |-> live])
+
+\* a returning client presenting cc: it offers the tickets it holds and keeps the ones it gets; obs = what the property
+\* demands of this handshake (the outcome does not depend on the offer), whether the client holds a ticket, and whether the
+\* property allows a resumption (a ticket of the configuration in force is among them)
+DoConnectReturning(cc) ==
+  /\ Count("connect") < Bound("connect")
+  /\ ConnectReturning(cc)
+  /\ hist' = Append(hist, [op |-> "connect", conn |-> IF AdmittedWith(cc, Held(cc)) THEN Len(conns) + 1 ELSE 0, cc |-> cc,
+                           keep |-> TRUE])
+  /\ obs' = Append(obs, [outcome |-> OutcomeWith(cc, Held(cc)), identity |-> live, holds |-> Held(cc) # {},
+                         mayResume |-> Usable(Held(cc)) # {}])
 
 DoReload ==
   /\ Count("reload") < Bound("reload")
@@ -138,6 +175,9 @@ DoUse(x) ==
 \* what the clients of the rotation scripts present: nothing, or the certificate of a generation of the CA
 RotCerts == {"none"} \cup GenNames(wantGen)
 
+\* what the returning clients present: with mutual TLS the certificate of a generation of the CA, without it nothing
+ResCerts == IF wantCA = "configured" THEN GenNames(wantGen) ELSE {"none"}
+
 \* client side
 DoCConnect(srv) ==
   /\ Count("connect") < Bound("connect")
@@ -159,26 +199,28 @@ Next ==
                                        \/ \E x \in DOMAIN conns : DoUse(x))
      \/ kind = "rfail" /\ (DoConnectAs(RightCert) \/ DoReload \/ DoBotch \/ \E x \in DOMAIN conns : DoUse(x))
      \/ kind = "client" /\ ((\E srv \in CPresentable : DoCConnect(srv)) \/ DoCRotate)
+     \/ kind \in {"res", "rres"} /\ ((\E cc \in ResCerts : DoConnectReturning(cc)) \/ DoReload \/ DoRotate
+                                       \/ \E x \in DOMAIN conns : DoUse(x))
 
 Spec == Init /\ [][Next]_vars
 
 Complete ==
   /\ Count("connect") = Bound("connect") /\ Count("reload") = Bound("reload") /\ Count("rotate") = Bound("rotate")
   /\ Count("botch") = Bound("botch")
-  /\ Count("use") = Bound("use") \/ (kind \in {"real", "rot", "rrot", "rfail"} /\ conns = <<>>)
+  /\ Count("use") = Bound("use") \/ (kind \in {"real", "rot", "rrot", "rfail", "res", "rres"} /\ conns = <<>>)
 
 TypeOK ==
   /\ MTypeOK
-  /\ kind \in {"case", "script", "real", "rot", "rrot", "rfail", "client"}
+  /\ kind \in {"case", "script", "real", "rot", "rrot", "rfail", "client", "res", "rres"}
   /\ kind = "case" => c \in Cases /\ hist = <<>> /\ Expected(c) \subseteq Outcomes
   /\ Len(obs) = Len(hist)
 
 Emit ==
   CASE kind = "case" ->
          PrintT(<<"CASE", ToJson([case |-> c, exp |-> Expected(c), asks |-> ServerAsksForCert(c)])>>)
-    [] kind \in {"script", "rot"} /\ Complete ->
+    [] kind \in {"script", "rot", "res"} /\ Complete ->
          PrintT(<<"SCRIPT", ToJson([mtls |-> c.mtls, ops |-> hist, exp |-> obs])>>)
-    [] kind \in {"real", "rrot", "rfail"} /\ Complete ->
+    [] kind \in {"real", "rrot", "rfail", "rres"} /\ Complete ->
          PrintT(<<"RSCRIPT", ToJson([mtls |-> c.mtls, ops |-> hist, exp |-> obs])>>)
     [] kind = "client" /\ Complete ->
          PrintT(<<"CSCRIPT", ToJson([ops |-> hist, exp |-> obs])>>)
